@@ -13,6 +13,9 @@ EXPECTED = {'ImmutableSandboxedEnvironment.is_safe_attribute': "arguments(posonl
                               "kwarg=arg(arg='kwargs'), defaults=[])\n"
                               'if not __self.is_safe_callable(__obj):\n'
                               "    raise SecurityError(f'{__obj!r} is not safely callable')\n"
+                              'fmt = __self.wrap_str_format(__obj)\n'
+                              'if fmt is not None:\n'
+                              '    __obj = fmt\n'
                               'return __context.call(__obj, *args, **kwargs)',
  'SandboxedEnvironment.getattr': "arguments(posonlyargs=[], args=[arg(arg='self'), arg(arg='obj'), "
                                  "arg(arg='attribute')], kwonlyargs=[], kw_defaults=[], defaults=[])\n"
